@@ -462,6 +462,11 @@ func (gen *Generator) GenerateCond(args []Sexp) error {
 }
 
 func (gen *Generator) GenerateQuote(args []Sexp) error {
+	if len(args) != 1 {
+		// every form leaves exactly one value; (quote a b) used to
+		// push two operands and leave one behind on the data stack.
+		return fmt.Errorf("quote takes exactly one argument, got %d", len(args))
+	}
 	for _, expr := range args {
 		gen.AddInstruction(PushInstr{expr})
 	}
